@@ -179,8 +179,16 @@ func overlayFor(pkgs map[string]bool) (map[string][]byte, map[string]string, err
 		paths[virtual] = real
 		return nil
 	}
-	if err := add(filepath.Join(*flagRepo, "internal/vrt/vrt.go"), filepath.Join(harnessRoot(), "vrt/vrt.go")); err != nil {
+	vents, err := os.ReadDir(filepath.Join(harnessRoot(), "vrt"))
+	if err != nil {
 		return nil, nil, err
+	}
+	for _, e := range vents {
+		if strings.HasSuffix(e.Name(), ".go") {
+			if err := add(filepath.Join(*flagRepo, "internal/vrt", e.Name()), filepath.Join(harnessRoot(), "vrt", e.Name())); err != nil {
+				return nil, nil, err
+			}
+		}
 	}
 	for rel := range pkgs {
 		dir := filepath.Join(harnessRoot(), rel)
